@@ -42,7 +42,8 @@ def corruptions(ex, op, payload):
 
     def walk_obj(val, static_type, sel, keys, rpath):
         rt = static_type if schema.kind(static_type) == "OBJECT" else val.get("__typename")
-        fields = gql.collect_fields(schema, ex.frags, rt, sel)
+        parents = {}
+        fields = gql.collect_fields(schema, ex.frags, rt, sel, parents=parents, static_type=static_type)
         abstract = schema.kind(static_type) != "OBJECT"
         if abstract and "__typename" in val:
             out.append(("typename_unknown", rpath, edit(keys + ["__typename"], lambda c, k: c.__setitem__(k, "NoSuchType")), ("unknown_typename",)))
@@ -56,7 +57,9 @@ def corruptions(ex, op, payload):
         for key, nodes in fields.items():
             if nodes[0].name == "__typename":
                 continue
-            fd = schema.field_def(rt, nodes[0].name)
+            # the declared type of the position is the one of the type the field was selected ON (an interface
+            # may declare `label: String` while the runtime object refines it to `String!`)
+            fd = schema.field_def(parents.get(id(nodes[0])) or rt, nodes[0].name) or schema.field_def(rt, nodes[0].name)
             walk_val(val.get(key), fd.type, gql.merged_subselection(nodes), keys + [key], rpath + "/" + key, in_list=False)
 
     def walk_val(v, t, sel, keys, rpath, in_list):
@@ -155,7 +158,8 @@ def run(tier):
     base_ok = {}
     per = {}
     samples = []
-    for (e, kind, rpath, payload, expect), r in zip(meta, resps):
+    suspects = []
+    for (e, kind, rpath, payload, expect), r, q in zip(meta, resps, reqs):
         if r is None:
             continue
         ok = bool(r.get("ok"))
@@ -198,8 +202,10 @@ def run(tier):
             per[key] = per.get(key, 0) + 1
             if per[key] <= 2:
                 rep.violation(problem[0], label, problem[1], sigs)
+                suspects.append((q, r))
         elif len(samples) < 4000:
             samples.append({"query": e["query"][:200], "corruption": kind, "at": rpath, "verdict": "rejected" if not ok else "accepted"})
+    farm.confirm(suspects[:400])
     cov = {
         "evaluations": len(reqs), "distinct_nontrivial": len(distinct),
         "rule": "per compiled operation module (other-variant off, and on for operations with an abstract position) one "
